@@ -123,7 +123,7 @@ def run(chk, ctx):
         cl = P.body(boi.name + "::{closure#0}")
         if chk.anchor("position closure", cl):
             pt = tab.predicate_table(P, cl)
-            want = {(frozenset(), "PartialEq<&B> for &A>::eq(elem([T]::iter(outputs)).signal, self.signals[EntryIndex::signal_index(some!(Iterator::next(IntoIterator::into_iter([T]::iter(self.expected_indices)))))])")}
+            want = {(frozenset(), "PartialEq<&B> for &A>::eq(elem([T]::iter(outputs)).signal, self.signals[EntryIndex::signal_index(some!(Iterator::next([T]::iter(self.expected_indices))))])")}
             chk.require(pt == want, "ORG", "ORG:build_output_indices:compares-with-current-signal", "|o| o.signal == signal of the current expected index", "position closure is %s" % sorted(pt, key=str))
         # one push per element, in order
         pushes = [(bb, [canon(x) for x in P.call_arg_terms(boi, bb)]) for bb, t in boi.calls() if callee_name(t)[0] == "std::vec::Vec::push" and canon(P.call_arg_terms(boi, bb)[0]).startswith("Vec::with_capacity")]
